@@ -159,7 +159,7 @@ def main():
                 raise Unknown("%s has no fallback (a required attribute)" % attr)
         except Unknown as u:
             notes.append(str(u))
-            terms[attr] = "(tr_untranslated %s)" % coq_string(str(u))
+            terms[attr] = "(tr_untranslated %s%%string)" % coq_string(str(u))
             deps = set()
         deps_of[attr] = deps
 
@@ -171,7 +171,7 @@ def main():
             for a, _ in FIELDS:
                 if a not in done:
                     notes.append("cyclic fallback through " + a)
-                    terms[a] = "(tr_untranslated %s)" % coq_string("cyclic fallback through " + a)
+                    terms[a] = "(tr_untranslated %s%%string)" % coq_string("cyclic fallback through " + a)
                     deps_of[a] = set()
             continue
         for a in ready:
